@@ -38,6 +38,7 @@ Apply(doc, e) ==
   LET d1 == IF e.keepAll THEN doc ELSE KeepNodes(doc, SeqRange(e.keep))
       d2 == IF e.nset.i = 0 THEN d1
             ELSE IF e.nset.f = "name" THEN [d1 EXCEPT !.nodes[e.nset.i].name = e.nset.v]
+            ELSE IF e.nset.f = "alias" THEN [d1 EXCEPT !.nodes[e.nset.i].alias = e.nset.v]
             ELSE [d1 EXCEPT !.nodes[e.nset.i].on = e.nset.v]
       d3 == IF e.dset.d = 0 THEN d2
             ELSE [d2 EXCEPT !.defs[e.dset.d].name = e.dset.name, !.defs[e.dset.d].kind = e.dset.kind,
@@ -74,6 +75,15 @@ Edits(S, doc, roots) ==
   \* 2. a sub-selection on a scalar / enum field
   {AppendEd("subselectionOnLeaf", i, <<FieldNode(doc.nodes[i].d, i, "x", "")>>) :
       i \in {x \in FieldNodes(doc) : IsLeaf(S, TargetType(S, doc, roots, x))}}
+  \cup
+  \* 2b. ... or on the meta field `__typename`
+  {AppendEd("subselectionOnTypename", i, <<FieldNode(doc.nodes[i].d, i, "x", "")>>) :
+      i \in {x \in NodeIds(doc) : doc.nodes[x].k = "typename"}}
+  \cup
+  \* 2c. `__typename` under another response key: the generated enums are tagged `__typename`, the
+  \*     server would answer with the alias (refused by the generator, D30)
+  {SetNode("aliasedTypename", i, "alias", "kind") :
+      i \in {x \in NodeIds(doc) : doc.nodes[x].k = "typename"}}
   \cup
   \* 3. no sub-selection on an object / interface / union field
   {KeepEd("noSubselectionOnComposite", i, NodeIds(doc) \ Descendants(doc, i)) :
